@@ -48,6 +48,9 @@ func c08Enumerate(tier string, seed int64, emit func(string, any)) {
 				emit("program+tail", c08Case{Pre: c03Prelude, Src: p + sep + t, Cfg: on})
 			}
 		}
+		for _, t := range c03CompoundTails {
+			emit("program+tail", c08Case{Pre: c03Prelude, Src: p + " " + t, Cfg: on})
+		}
 	}
 	gen.StringsUpTo(gen.TokensCore, 3, func(s string) { emit("tokens<=3", c08Case{Src: s, Cfg: on}) })
 	gen.StringsUpTo(gen.TokensFull, 2, func(s string) { emit("tokens<=2/full", c08Case{Src: s, Cfg: off}) })
